@@ -51,7 +51,10 @@ pub fn config(k: usize, scale: usize) -> (&'static str, VConfig<u64>) {
             c.order_fee = FeeParams::builder().fee_receiver_factor(U).positive_impact_fee_factor(30).negative_impact_fee_factor(50).build();
             c.borrowing = BorrowingFeeParams::builder().receiver_factor(U).factor_for_long(3).factor_for_short(2).exponent_for_long(U).exponent_for_short(U).build();
             c.liquidation = LiquidationFeeParams::builder().factor(20).receiver_factor(U).build();
-            "100% receiver factors, larger fees"
+            // the liquidation threshold (1%) lies far below the threshold for opening and keeping a position (15%):
+            // the price moves of the alphabet leave positions between the two
+            c.position = PositionParams::builder().min_position_size_usd(U).min_collateral_value(U).min_collateral_factor(1_500).min_collateral_factor_for_liquidation(Some(100)).max_positive_position_impact_factor(50).max_negative_position_impact_factor(50).max_position_impact_factor_for_liquidations(25).build();
+            "100% receiver factors, larger fees, liquidation threshold far below the minimum collateral factor"
         }
         3 => {
             c.swap_impact = PriceImpactParams::builder().exponent(2 * U).positive_factor(5).negative_factor(2).build();
